@@ -391,7 +391,7 @@ func ruleC01_3(c *Ctx, r *Rep) {
 			r.Check("C01.3", k, s.Pos, ok && len(s.Unknown) == 0, "delivery builder flows into CreateBulk(...).Save on the transaction", "a created delivery builder is not saved through CreateBulk on the transaction (escapes="+s.Escapes+" "+strings.Join(s.Unknown, ";")+")")
 		}
 	}
-	r.Floor("C01.3:create", n, 2)
+	r.Floor("C01.3:create", n, 1)
 	// (d) skips only for filtered subscriptions
 	nskip := 0
 	for _, ret := range returnsOf(del) {
@@ -422,8 +422,11 @@ func ruleC01_3(c *Ctx, r *Rep) {
 // checkDeliverLoop: in `caller`, the call of deliverToSubscription sits in a loop that (i) has no exit besides the
 // range condition and error returns and (ii) reaches the call on every iteration.
 func checkDeliverLoop(c *Ctx, r *Rep, rule string, caller, del *ssa.Function) {
+	anchor := caller
+	caller = c.opFuncWhere(caller, hasCallTo(del))
+	_ = anchor
 	calls := callsIn(caller, false, func(cal *ssa.Function, _ ssa.CallInstruction) bool { return cal == del })
-	key := rule + ":loop@" + c.Key(caller)
+	key := rule + ":loop@" + c.Key(anchor)
 	if len(calls) != 1 {
 		r.Fail(rule, key, caller.Pos(), fmt.Sprintf("expected one call of deliverToSubscription, found %d", len(calls)))
 		return
